@@ -10,11 +10,12 @@ Variables lower upper : str -> str.
 Variable parse_tree : mapper -> tz -> res (option T * mapper * tz).
 Variable set_label : T -> option str -> T.
 Variable add_comments : T -> list str -> T.
-Variable c : cfg.
+Variable c : nscfg.
+Variable tlf : tl_factory.
 
 Notation RTL := (r_tree_loop T upper parse_tree set_label add_comments).
 Notation YTL := (y_tree_loop T upper parse_tree set_label add_comments).
-Notation RTS := (r_trees_loop T lower upper parse_tree set_label add_comments c).
+Notation RTS := (r_trees_loop T lower upper parse_tree set_label add_comments c tlf).
 Notation YTS := (y_trees_loop T lower upper parse_tree set_label add_comments c).
 Notation PTS := (parse_tree_stmt T parse_tree set_label add_comments).
 Notation appends i := (fold_left (fun l t => tl_append T l i t)).
@@ -44,14 +45,14 @@ Qed.
 (* the block loop: what the reader returns is determined by what the iterator does *)
 Definition trees_rel (tls : list (tlval T)) (out : list T) (r : res (core * regs)) (rr : res (rs T)) : Prop :=
   match r with
-  | Ok (k', g') => exists tls' reg' tb', rr = Ok (mkRs k' g' tls' reg') /\ wf T c tls' reg' tb'
-                                         /\ flat T c tls' = flat T c tls ++ out
+  | Ok (k', g') => exists tls' reg' tb', rr = Ok (mkRs k' g' tls' reg') /\ wf T tlf tls' reg' tb'
+                                         /\ flat T tlf tls' = flat T tlf tls ++ out
   | Err e => rr = Err e
   | OutOfFuel => rr = OutOfFuel
   end.
 
 Lemma trees_rel_app : forall tls tls1 out1 out2 r rr,
-  flat T c tls1 = flat T c tls ++ out1 ->
+  flat T tlf tls1 = flat T tlf tls ++ out1 ->
   trees_rel tls1 out2 r rr -> trees_rel tls (out1 ++ out2) r rr.
 Proof.
   intros tls tls1 out1 out2 r rr HF H. unfold trees_rel in *.
@@ -61,7 +62,7 @@ Proof.
 Qed.
 
 Lemma trees_loop_agree : forall fuel k g tls reg l tb,
-  wf T c tls reg tb ->
+  wf T tlf tls reg tb ->
   trees_rel tls (fst (YTS fuel k g l)) (snd (YTS fuel k g l)) (RTS fuel (mkRs k g tls reg) l tb).
 Proof.
   induction fuel as [|f IH]; intros k g tls reg l tb W; [simpl; reflexivity|].
@@ -92,24 +93,24 @@ Proof.
     (* the reader's tree list for this block *)
     destruct (match tb with
               | Some i => (i, tls, reg)
-              | None => new_tree_list T c tls reg (l_title l)
+              | None => new_tree_list T tlf tls reg (l_title l)
               end) as [[i tls4] reg4] eqn:ETB.
-    assert (W4 : wf T c tls4 reg4 (Some i) /\ flat T c tls4 = flat T c tls).
+    assert (W4 : wf T tlf tls4 reg4 (Some i) /\ flat T tlf tls4 = flat T tlf tls).
     { destruct tb as [j|].
       - inversion ETB; subst. split; [assumption | reflexivity].
-      - apply (new_tree_list_wf T c tls reg (l_title l)); [exact W | exact ETB]. }
+      - apply (new_tree_list_wf T tlf tls reg (l_title l)); [exact W | exact ETB]. }
     destruct W4 as [W4 F4].
     set (tls5 := if is_nil pre then tls4 else tl_add_comments T tls4 i pre).
-    assert (W5 : wf T c tls5 reg4 (Some i) /\ flat T c tls5 = flat T c tls).
+    assert (W5 : wf T tlf tls5 reg4 (Some i) /\ flat T tlf tls5 = flat T tlf tls).
     { unfold tls5. destruct (is_nil pre); [split; assumption|].
-      destruct (tl_add_comments_wf T c tls4 reg4 i pre W4) as [A B]. split; [exact A | congruence]. }
+      destruct (tl_add_comments_wf T tlf tls4 reg4 i pre W4) as [A B]. split; [exact A | congruence]. }
     destruct W5 as [W5 F5].
     rewrite tree_loop_agree.
     unfold ybind.
     destruct (YTL (S f) (set_z k2 z3) ns m) as [out1 r1].
     destruct r1 as [[[k6 m1] tk]|e|]; cbn [bind]; try (simpl; reflexivity).
     cbv beta iota.
-    destruct (appends_wf T c out1 tls5 reg4 i W5) as [W6 F6].
+    destruct (appends_wf T tlf out1 tls5 reg4 i W5) as [W6 F6].
     match goal with |- context [YTS f ?a ?b ?d] => specialize (IH a b (appends i out1 tls5) reg4 d (Some i) W6);
       destruct (YTS f a b d) as [out2 r2] end.
     simpl fst in *. simpl snd in *.
